@@ -714,6 +714,10 @@ fn check_reduction(red: Red, a: &[f64], b: &[f64], rows: usize, got: f64) -> Res
                 return Ok(());
             }
             let cols = a.len() / rows;
+            // near overflow the row sums are not representable: nothing to decide
+            if !(a.iter().map(|x| x.abs()).sum::<f64>() < 1e300) {
+                return Ok(());
+            }
             let mut best = f64::NEG_INFINITY;
             let mut bestabs = 0.0;
             for i in 0..rows {
